@@ -37,6 +37,11 @@ Expected ==
     [] c.mode = "3d0"  -> c.ref                                           \* task i = epoched analysis of sigs[i]: a list over epochs
     [] OTHER           -> Transpose(c.ref, c.n0, c.n1)                  \* "3d1": task j = epoched analysis of sigs[:, j], transposed back
 Nested == c.mode # "2d"
+\* what every behaviour of the pool specification implies for the per-process logs (Take removes the HEAD of a queue filled in task order):
+\* each worker's log is increasing and the logs partition the tasks.  Used where the search for an explaining schedule is not run
+\* (hundreds of tasks: the interleavings of the logs are too many to explore).
+LogsInQueueOrder == /\ \A w \in 1 .. W : \A i, j \in 1 .. Len(c.logs[w]) : i < j => c.logs[w][i] < c.logs[w][j]
+                    /\ \A k \in 1 .. T : Cardinality({ w \in 1 .. W : \E i \in 1 .. Len(c.logs[w]) : c.logs[w][i] = k }) = 1
 Clauses ==
   IF c.raised # "" THEN <<c.pid \o ".raised">>
   ELSE IF ~Nested
@@ -46,6 +51,7 @@ Clauses ==
          \o Fail((Len(c.out) = c.n0 /\ \A i \in 1 .. Len(c.out) : Len(c.out[i]) = c.n1) =>
                     \A i \in 1 .. c.n0, j \in 1 .. c.n1 : c.out[i][j] = Expected[i][j], c.pid \o ".table_at_wrong_position_or_with_wrong_options")
   \o (IF c.models # <<>> THEN Fail(c.models = c.out, c.pid \o ".group_models_do_not_mirror_results") ELSE <<>>)
+  \o (IF "check_logs" \in DOMAIN c /\ c.check_logs THEN Fail(LogsInQueueOrder, c.pid \o ".worker_logs_not_a_partition_of_the_tasks_in_queue_order") ELSE <<>>)
 
 Judge == /\ stage = "judge"
          /\ fails' = Clauses
